@@ -142,15 +142,16 @@ func (s *scte35) parseTable(data []byte) error {
 			return gots.ErrInvalidSCTE35Length
 		}
 		// parse descriptors
-		descriptorLoopLength := binary.BigEndian.Uint16(buf.Next(2))
-		if buf.Len() < int(descriptorLoopLength+psi.CrcLen) {
+		// int arithmetic: a descriptor_loop_length close to 0xFFFF must not wrap around
+		descriptorLoopLength := int(binary.BigEndian.Uint16(buf.Next(2)))
+		if buf.Len() < descriptorLoopLength+int(psi.CrcLen) {
 			return gots.ErrInvalidSCTE35Length
 		}
-		for bytesRead := uint16(0); bytesRead < descriptorLoopLength; {
+		for bytesRead := 0; bytesRead < descriptorLoopLength; {
 			descTag := readByte()
 			descLen := readByte()
 			// Make sure a bad descriptorLen doesn't kill us
-			if descriptorLoopLength-bytesRead-2 < uint16(descLen) {
+			if descriptorLoopLength-bytesRead-2 < int(descLen) {
 				return gots.ErrInvalidSCTE35Length
 			}
 			if descTag != segDescTag {
@@ -167,7 +168,7 @@ func (s *scte35) parseTable(data []byte) error {
 				}
 				s.descriptors = append(s.descriptors, d)
 			}
-			bytesRead += 2 + uint16(descLen)
+			bytesRead += 2 + int(descLen)
 		}
 	} else {
 		return gots.ErrUnknownTableID
